@@ -21,6 +21,9 @@ TITLE_SETS = {
     'permuted': ['My Sheet', 'S', 'Sheet2'],
     'odd': ['A1', 'Лист1', '2020'],
     'punct': ['a.b', "It's", 'x y.z'],
+    # apostrophes at the edges of a title (spelled doubled inside the quotes) next to the sheets they would collapse to
+    'edge-apostrophe': ["Plan'", 'Plan', "'Plan"],
+    'look-alikes': ['S 1', 'S1', 'S  1'],
 }
 UNQUOTED_OK = {'S', 'Sheet2', 'Лист1'}
 N = 8  # planted block
